@@ -293,3 +293,88 @@ def det_problem(a, det):
             return ('det0', 'zero-determinant sampler: |det| = %r (numpy %r), tolerance %.3g (norm %r)'
                     % (abs(d), abs(d_np), tol, fro))
     return None
+
+
+# --------------------------------------------------------------------------- declared sets as descriptors
+
+def square_problem(sample, MathArray, dim, sym, traceless, det, cplx, norm):
+    """every declared constraint of one SquareMatrices configuration; (sig_suffix, message) or None"""
+    eff = bool(cplx) or sym in ('hermitian', 'antihermitian')
+    # a 2x2 antisymmetric matrix [[0,a],[-a,0]] with determinant a^2 = 1 is necessarily real
+    forced_real = (dim == 2 and sym == 'antisymmetric' and det == 1)
+    bad = basic_array_problem(sample, MathArray, (dim, dim), eff, forced_real)
+    if bad:
+        return bad
+    a = plain(sample)
+    bad = symmetry_problem(a, sym)
+    if bad:
+        return bad
+    if traceless:
+        bad = trace_problem(a)
+        if bad:
+            return bad
+    if det is not None:
+        bad = det_problem(a, det)
+        if bad:
+            return bad
+    if det != 1:
+        bad = norm_problem(a, norm)
+        if bad:
+            return bad
+    return None
+
+
+def identity_problem(sample, MathArray, d, desc):
+    """sample must be (member of the scalar set desc) * identity(d), exactly"""
+    if not isinstance(sample, MathArray):
+        return ('not-matharray', 'sample is %s, not MathArray' % type(sample).__name__)
+    a = plain(sample)
+    if a.shape != (d, d):
+        return ('shape', 'shape %r, declared %r' % (a.shape, (d, d)))
+    for i in range(d):
+        for j in range(d):
+            if i != j and a[i, j] != 0:
+                return ('off-diagonal', 'entry [%d,%d] = %r is not zero' % (i, j, a[i, j]))
+            if i == j and not (a[i, i] == a[0, 0]):
+                return ('diagonal-differs', 'diagonal entries %r and %r differ' % (a[0, 0], a[i, i]))
+    v = a[0, 0].item()
+    if desc[0] == 'int':
+        # the matrix is scalar * eye (float): the multiple must be an integer of the range
+        if v != int(v):
+            return ('scalar-outside', 'multiple %r is not an integer' % (v,))
+        v = int(v)
+    elif desc[0] in ('rect', 'sector'):
+        v = complex(v)
+    why = scalar_problem(desc, v)
+    if why:
+        return ('scalar-outside', why)
+    return None
+
+
+def declared_problem(desc, sample, MathArray):
+    """
+    desc: ('real'|'int', [a,b]) | ('rect', re, im) | ('sector', mod, arg)
+        | ('array', shape, complex, norm, triangular) | ('identity', d, scalar desc)
+        | ('square', dim, sym, traceless, det, complex, norm) | ('member', [numbers])
+    Returns (sig_suffix, message) or None.
+    """
+    kind = desc[0]
+    if kind in ('real', 'int', 'rect', 'sector'):
+        why = scalar_problem(desc, sample)
+        return ('outside', why) if why else None
+    if kind == 'member':
+        if not is_complex_scalar(sample) or not any(sample == m for m in desc[1]):
+            return ('not-a-listed-member', 'sample %r is not one of %r' % (sample, desc[1]))
+        return None
+    if kind == 'array':
+        _, shape, cplx, norm, tri = desc
+        bad = basic_array_problem(sample, MathArray, tuple(shape), bool(cplx))
+        if bad:
+            return bad
+        a = plain(sample)
+        return norm_problem(a, norm) or (triangular_problem(a, tri) if tri else None)
+    if kind == 'identity':
+        return identity_problem(sample, MathArray, desc[1], desc[2])
+    if kind == 'square':
+        return square_problem(sample, MathArray, *desc[1:])
+    raise ValueError(desc)
